@@ -26,7 +26,8 @@ ASSUMPTIONS = [
     "each request carries an extra top-level key (rid) the protocol ignores, used to tag exchanges",
 ]
 REQUIRED_LABELS = {t: ["clients>=8", "overlap-in-flight", "link-faults", "req:advance", "req:sign_auth",
-                       "req:sign_unauth", "req:state", "req:signerHb", "req:getPubKey"]
+                       "req:sign_unauth", "req:state", "req:signerHb", "req:getPubKey",
+                       "stop-path:hb-malformed-der", "stop-path:reconnect-into-ui-heartbeat"]
                    for t in ("quick", "thorough")}
 KINDS = ["sign_unauth", "sign_auth", "advance", "state", "signerHb", "getPubKey"]
 T = mw.nominal_requests()
@@ -108,7 +109,16 @@ def run_case(c):
             cur.rid = None
     p.handle_request = tagged
     from checks.c03 import _free_server
-    srv, t, result, port = _free_server(p)
+    hosts = c.get("bind") or ["127.0.0.1"]
+    if len(hosts) == 1:
+        srv, t, result, port = _free_server(p)
+    else:
+        # a manager told to listen on several addresses (should the code accept such a
+        # setting): all of them lead to the one device
+        started = _bind_list_server(p, hosts)
+        if started is None:
+            return Out(["bind-list-not-served"], False)
+        srv, t, result, port = started
     mark = len(w.log)
     for ordinal, kind in c.get("faults", []):
         w.faults[w.nex + ordinal] = kind
@@ -124,20 +134,27 @@ def run_case(c):
             line = json.dumps(req).encode() + b"\n"
             t0 = time.time()
             reply = None
+            last = None
             for attempt in range(4):
+                # only the connection attempt is repeated: once the request is on its way it is
+                # never sent a second time (it might be executed twice)
                 try:
-                    s = socket.create_connection(("127.0.0.1", port), timeout=60)
-                    try:
-                        s.sendall(line)
-                        f = s.makefile("rb")
-                        reply = f.readline()
-                    finally:
-                        s.close()
-                    break
-                except (ConnectionRefusedError, ConnectionResetError, socket.timeout) as e:
+                    s = socket.create_connection((hosts[ci % len(hosts)], port), timeout=60)
+                except (ConnectionRefusedError, socket.timeout) as e:
                     retries[0] += 1
                     last = e
                     time.sleep(0.05)
+                    continue
+                try:
+                    s.sendall(line)
+                    f = s.makefile("rb")
+                    reply = f.readline()
+                except OSError as e:
+                    last = e
+                    reply = b""
+                finally:
+                    s.close()
+                break
             t1 = time.time()
             if reply is None:
                 errors.append("client %s got no connection: %r" % (rid, last))
@@ -228,14 +245,71 @@ def run_case(c):
     if faulty:
         labels.append("link-faults")
     # exchanges made outside any request (e.g. by a helper thread) while requests are served
-    stray = [e for e in w.log[mark:] if e[0] == "apdu" and e[3] is None]
-    if stray:
-        raise Violation("exchange-outside-any-request", "%d device exchanges were made by a "
-                        "thread that is not serving a request, e.g. %s" % (
-                            len(stray), stray[0][2].hex()))
+    # exchanges made outside any request (e.g. by a helper thread): inside the block of a
+    # request they break its contiguity; between two blocks they do not
+    seq = [e[3] for e in w.log[mark:] if e[0] == "apdu"]
+    first_at, last_at = {}, {}
+    for k, tg in enumerate(seq):
+        if tg is not None:
+            first_at.setdefault(tg, k)
+            last_at[tg] = k
+    inside = [k for k, tg in enumerate(seq) if tg is None and
+              any(first_at[r] < k < last_at[r] for r in first_at)]
+    if inside:
+        raise Violation("exchange-inside-another-requests-block", "%d device exchanges made by "
+                        "a thread that is not serving a request fall inside the block of a "
+                        "request" % len(inside))
+    if any(tg is None for tg in seq):
+        labels.append("exchanges-between-blocks")
     if retries[0]:
         labels.append("connect-retries")
     return Out(labels, overlap)
+
+
+def _bind_list_server(p, hosts):
+    from comm.server import TCPServer
+    probe = socket.socket()
+    probe.bind(("127.0.0.1", 0))
+    port = probe.getsockname()[1]
+    probe.close()
+    srv = TCPServer(",".join(hosts), port, p)
+    result = {}
+
+    def target():
+        try:
+            srv.run()
+            result["end"] = "returned"
+        except BaseException as e:   # noqa
+            result["end"] = "raised %s" % type(e).__name__
+    t = threading.Thread(target=target, daemon=True)
+    t.start()
+    deadline = time.time() + 5
+    up = set()
+    while time.time() < deadline and t.is_alive() and len(up) < len(hosts):
+        for h in hosts:
+            if h in up:
+                continue
+            try:
+                socket.create_connection((h, port), timeout=1).close()
+                up.add(h)
+            except OSError:
+                pass
+        time.sleep(0.01)
+    if len(up) == len(hosts):
+        return srv, t, result, port
+    try:
+        if srv.server is not None:
+            srv.server.shutdown()
+    except Exception:
+        pass
+    return None
+
+
+def bind_list_cases(tier, seed):
+    sc = ["state", "sign_auth", "advance", "signerHb"]
+    return [{"bind": ["127.0.0.1", "127.0.0.2"], "delays_us": [300, 0, 1500],
+             "clients": [{"offset_ms": i % 2, "script": sc[i % 4:] + sc[:i % 4]}
+                         for i in range(n)]} for n in (4, 8)]
 
 
 def stop_path_cases(tier, seed):
@@ -259,17 +333,24 @@ def run_stop_path(c):
         rep1 = _talk(port, json.dumps(first).encode())
         r1 = mw.parse_reply(rep1)
         if r1 is None or r1["errorcode"] != 0:
-            raise Violation("stop-path-setup", repr(rep1[:100]))
+            return Out(["stop-path-precondition-not-met"], False)
         if c["fatal"] == "hb-malformed-der":
             w.hb["sig"] = b"\x30"          # the device hands out a truncated signature
             last = make_request("signerHb", "1.0", 5, 6)
         else:
-            w.faults[w.nex] = "read"
-            mid = _talk(port, json.dumps(make_request("getPubKey", "1.0", 1, 1)).encode())
-            if mw.parse_reply(mid) is None:
-                raise Violation("stop-path-setup", repr(mid[:100]))
-            rep1 = mid
-            w.mode = UIHB                  # the device comes back outside the signer
+            # the link is reported broken (as a failed exchange would), and the device comes
+            # back outside the signer: the repair inside the next request stops the manager
+            pp = getattr(p, "protocol_v2", p)
+            if hasattr(pp, "report_comm_issue"):
+                pp.report_comm_issue()
+            else:
+                w.faults[w.nex] = "read"
+                mid = _talk(port, json.dumps(make_request("getPubKey", "1.0", 1, 1)).encode())
+                if mw.parse_reply(mid) is None:
+                    return Out(["stop-path-precondition-not-met"], False)
+                # one more content-bearing reply before the fatal request is not possible
+                # without repairing the link: compare with the last content-bearing one
+            w.mode = UIHB
             last = make_request("state", "2.0", 5, 6)
         try:
             rep2 = _talk(port, json.dumps(last).encode())
@@ -282,6 +363,8 @@ def run_stop_path(c):
             o2 = None
         o1 = json.loads(rep1.decode())
         labels = ["stop-path:" + c["fatal"]]
+        if not [k for k in o1 if k != "errorcode"]:
+            raise HarnessError("the reply before the fatal request carries no field to compare")
         if isinstance(o2, dict):
             foreign = [k for k in o2 if k != "errorcode" and k in o1 and o2[k] == o1[k]]
             if foreign:
@@ -318,6 +401,9 @@ def stages(tier):
     return [EnumStage("stop-path", stop_path_cases, run_stop_path,
                       exhaustive={"quick": True, "thorough": True},
                       budget_s={"quick": 60, "thorough": 60}, workers=6),
+            EnumStage("bind-list", bind_list_cases, run_case,
+                      exhaustive={"quick": True, "thorough": True},
+                      budget_s={"quick": 60, "thorough": 60}, workers=2),
             EnumStage("slow-device", stall_cases, run_case,
                       exhaustive={"quick": True, "thorough": True},
                       budget_s={"quick": 120, "thorough": 120}, workers=2),
